@@ -98,7 +98,9 @@ func (r *rule) match(path string) (bool, error) {
 }
 
 func (r *rule) compile() error {
-	regStr := "^"
+	// "(?s)": a "**" in the pattern becomes ".*", which has to match any
+	// character of a path, a newline in a file name included.
+	regStr := "(?s)^"
 	pattern := r.val
 	// Go through the pattern and convert it to a regexp.
 	// Use a scanner to support utf-8 chars.
